@@ -1702,6 +1702,11 @@ def ovmb_encoding_rules(ck, fb):
         if m:
             ctr = m.group(1) or m.group(2)
             incs = [(b2, i2) for b2, i2, y in f.tops() if b2 in f.reach() and (ctr + "++" in cn.s(y) or "++" + ctr in cn.s(y) or ("(" + ctr + " += 1)") in cn.s(y))]
+            # a pure local holding the incremented value (`const auto my = idx++; ... .idx = my`) is inlined by Canon at its use:
+            # the use site then repeats the text of the increment without being one
+            a_ = as_assign(x)
+            if len(incs) > 1 and a_ and unwrap(a_[1]).get("k") == "var":
+                incs = [p_ for p_ in incs if p_ != (b, i)]
             latches = [bb for bb in body if hdr in f.succ(bb)]
             ok = len(incs) == 1 and incs[0][0] in body and all(f.dominates(incs[0], (l_, 0)) or incs[0][0] == l_ for l_ in latches)
             (ck.ok if ok else lambda r_, w_, t_: ck.violate(r_, w_, t_, "C06.propidx"))("C06.propidx", f.loc(x), "write_all_props: the counter behind the chunk index is incremented exactly once on every turn of the loop over props_ (%d increment site(s), %d back edge(s))" % (len(incs), len(latches)))
